@@ -16,6 +16,7 @@ from ..pat import match_stmt
 from ..resolve import resolver
 from ..rules import api, arity, attr, sig, undef
 
+KEEP_LOGGING = True  # the log calls are typed and name-checked like any other call
 TECHNIQUE = "whole-package attribute-existence (R-ATTR), call-signature conformance incl. overrides (R-SIG), third-party API existence (R-API), definite assignment with syntactic path feasibility (R-UNDEF), undefined names (R-NAME), registry/branch-table agreement (R-REG), validation-before-sampling order (R-ORDER)"
 
 # Reviewed possibly-unbound reads: (function, name) -> why the unbound path is infeasible.
